@@ -1,6 +1,7 @@
 package eng
 
 import (
+	"sort"
 	"fmt"
 	"go/token"
 	"go/types"
@@ -628,18 +629,21 @@ func (e *Engine) modularCallSig(st *State, sig *types.Signature, name string, ct
 	}
 	// havoc
 	if ct.ModAny {
-		panic(e.unsupported("modifies * on callee " + name))
+		// the callee may write anywhere: every heap class and every ghost variable becomes unknown
+		// (local variables that never escaped are untouched); well-formedness of the new heap is restated
+		e.havocAll(st)
+	} else {
+		var locs []Loc
+		for _, m := range ct.Modifies {
+			locs = append(locs, e.evalLocsClause(pre, m)...)
+		}
+		e.havocLocs(st, locs)
+		// allocation may have advanced
+		na := tb.Fresh("alloc", SInt)
+		e.assume(st, tb.Ge(na, st.Alloc))
+		st.Alloc = na
+		st.noteAlloc()
 	}
-	var locs []Loc
-	for _, m := range ct.Modifies {
-		locs = append(locs, e.evalLocsClause(pre, m)...)
-	}
-	e.havocLocs(st, locs)
-	// allocation may have advanced
-	na := tb.Fresh("alloc", SInt)
-	e.assume(st, tb.Ge(na, st.Alloc))
-	st.Alloc = na
-	st.noteAlloc()
 	// results
 	res := e.havocResults(st, sig, "r_"+sanitize(name))
 	rn := resultNames(sig, ct)
@@ -698,6 +702,74 @@ func (e *Engine) evalLocsClause(c *specCtx, cl Clause) (l []Loc) {
 }
 
 func shortFile(f string) string { return strings.TrimPrefix(f, "/repo/") }
+
+// havocAll makes the whole heap and all ghost state unknown (callee with "modifies *").
+func (e *Engine) havocAll(st *State) {
+	tb := e.tb
+	var classes []string
+	for cl := range e.classSorts {
+		classes = append(classes, cl)
+	}
+	sort.Strings(classes)
+	for _, cl := range classes {
+		if strings.HasPrefix(cl, "G:") {
+			// package-level variables: unknown as well
+			st.Heap[cl] = tb.Fresh("hva_"+cl, e.classSorts[cl])
+			st.Written[cl] = true
+			if st.Disc != nil {
+				st.Disc.Classes[cl] = true
+			}
+			continue
+		}
+		e.setH(st, cl, tb.Fresh("hva_"+cl, e.classSorts[cl]))
+	}
+	for g := range ghostSorts {
+		st.Ghost[g] = tb.Fresh("hvg_"+g, ghostSorts[g])
+		if st.Disc != nil {
+			st.Disc.Ghosts[g] = true
+		}
+	}
+	for g, old := range st.Ghost {
+		if _, known := ghostSorts[g]; known || strings.HasPrefix(g, "view:") {
+			continue
+		}
+		st.Ghost[g] = tb.Fresh("hvg_"+sanitize(g), old.Sort)
+		if st.Disc != nil {
+			st.Disc.Ghosts[g] = true
+		}
+	}
+	na := tb.Fresh("alloc", SInt)
+	e.assume(st, tb.Ge(na, st.Alloc))
+	st.Alloc = na
+	st.noteAlloc()
+	// well-formedness of the unknown heap: stored references denote allocated objects, unsigned values are in range
+	for _, cl := range classes {
+		h := st.Heap[cl]
+		k, ok := e.classKinds[cl]
+		if !ok {
+			continue
+		}
+		if k == LKInt {
+			if ax := e.rangeAxiom(cl, h); ax != nil {
+				e.assumeQuiet(st, ax)
+			}
+			continue
+		}
+		if k != LKRef && k != LKSlArr {
+			continue
+		}
+		r := tb.BoundVar("r", SInt)
+		switch h.Sort {
+		case SArrI:
+			v := tb.Select(h, r)
+			e.assumeQuiet(st, tb.Forall([]*Term{r}, tb.And(tb.Le(tb.Int(0), v), tb.Lt(v, st.Alloc)), []*Term{v}))
+		case SArr2I:
+			i := tb.BoundVar("i", SInt)
+			v := tb.Select(tb.Select(h, r), i)
+			e.assumeQuiet(st, tb.Forall([]*Term{r, i}, tb.And(tb.Le(tb.Int(0), v), tb.Lt(v, st.Alloc)), []*Term{v}))
+		}
+	}
+}
 
 // havocLocs replaces the contents of the given locations by fresh values.
 func (e *Engine) havocLocs(st *State, locs []Loc) {
@@ -791,10 +863,14 @@ func (e *Engine) copyOut(st *State) {
 
 // checkCallSites emits the call-site obligations of the current frame's contract for this callee.
 func (e *Engine) checkCallSites(st *State, calleeKey string, sig *types.Signature, recvIface types.Type, args []Val, pos token.Pos) {
-	if len(st.Frames) == 0 {
-		return
+	// every function on the (inline) call stack that carries a call-site clause for this callee is checked:
+	// the call may happen inside a helper inlined into the function that states the obligation
+	for fi := len(st.Frames) - 1; fi >= 0; fi-- {
+		e.checkCallSitesFrame(st, st.Frames[fi], calleeKey, sig, recvIface, args, pos)
 	}
-	fr := st.top()
+}
+
+func (e *Engine) checkCallSitesFrame(st *State, fr *Frame, calleeKey string, sig *types.Signature, recvIface types.Type, args []Val, pos token.Pos) {
 	if fr.Contract == nil || len(fr.Contract.CallSites) == 0 {
 		return
 	}
